@@ -92,26 +92,35 @@ class PeriodicRun:
                     self.probes.append(AttributeProbe('nope', self.targets[k]))
                 else:
                     self.probes.append(Probe(getter, self.targets[k]))
-            kw = {}
-            if case['capacity'] is not None:
-                kw['data_capacity'] = case['capacity']
-            if case['kind'] == 'periodic':
-                self.sensor = PeriodicSensor(case['interval'], self.probes, name='sensor', **kw)
-            else:
-                self.sensor = Sensor(self.probes, name='sensor', **kw)
-            self.cb_log = []
-            for j in range(case['callbacks']):
-                self.sensor.add_on_sense_callback(self.make_cb(j))
+            self.classes = (PeriodicSensor, Sensor, HCms, Maintainer)
+            self.sensor = None
             self.cms = None
+            self.cb_log = []
             self.cms_log = []
-            if case['cms']:
-                self.cms = HCms(Maintainer(name='m'), name='cms')
-                for _ in range(case['cms']):
-                    self.cms.add_sensor(self.sensor)
+            self.t0 = 0.0
+            if not case.get('late'):
+                self.make_sensor()
         self.expected = []          # [(time, [values])] all measurements so far
         self.pending = None
         self.t_next = None
         self.count = 0
+
+    def make_sensor(self):
+        PeriodicSensor, Sensor, HCms, Maintainer = self.classes
+        case = self.case
+        kw = {}
+        if case['capacity'] is not None:
+            kw['data_capacity'] = case['capacity']
+        if case['kind'] == 'periodic':
+            self.sensor = PeriodicSensor(case['interval'], self.probes, name='sensor', **kw)
+        else:
+            self.sensor = Sensor(self.probes, name='sensor', **kw)
+        for j in range(case['callbacks']):
+            self.sensor.add_on_sense_callback(self.make_cb(j))
+        if case['cms']:
+            self.cms = HCms(Maintainer(name='m'), name='cms')
+            for _ in range(case['cms']):
+                self.cms.add_sensor(self.sensor)
 
     def make_cb(self, j):
         def cb(sensor, time, data):
@@ -147,6 +156,8 @@ class PeriodicRun:
                 elif isinstance(v, Box):
                     v.x += 1 + op[2]
             elif kind == 'sense':
+                if self.sensor is None:
+                    return
                 self.pending = (self.env.now, self.probe_values())
                 self.sensor.sense()
         act.__name__ = 'script_' + op[0]
@@ -157,7 +168,7 @@ class PeriodicRun:
             self.pending = (self.env.now, self.probe_values())
 
     def dispatched(self, ev):
-        if self.failed:
+        if self.failed or self.sensor is None:
             return
         now = self.env.now
         case = self.case
@@ -166,9 +177,7 @@ class PeriodicRun:
             self.pending = None
             self.count += 1
             if case['kind'] == 'periodic':
-                want_t = (self.t_next if self.t_next is not None else 0.0 + case['interval'])
-                if self.t_next is None:
-                    want_t = 0.0 + case['interval']
+                want_t = self.t_next if self.t_next is not None else self.t0 + case['interval']
                 if t != want_t:
                     self.fail('sample_time', f'measurement {self.count} at {t!r}, expected {want_t!r} '
                               f'({self.count}-fold addition of {case["interval"]!r})')
@@ -240,9 +249,9 @@ class PeriodicRun:
             self.fail('alignment', f'series of different lengths: {[len(v) for v in data.values()]}')
 
     def before_advance(self, env, t):
-        if self.failed or self.case['kind'] != 'periodic':
+        if self.failed or self.case['kind'] != 'periodic' or self.sensor is None:
             return
-        due = self.t_next if self.t_next is not None else 0.0 + self.case['interval']
+        due = self.t_next if self.t_next is not None else self.t0 + self.case['interval']
         if due <= env.now:
             self.fail('sample_missed', f'measurement {self.count + 1} was due at {due!r}; clock leaves {env.now!r}')
 
@@ -252,11 +261,17 @@ class PeriodicRun:
             for t, prio, op in case['script']:
                 self.env.schedule_event(t, -2, self.script_action(op), prio)
             try:
-                for d in case['horizon']:
+                for n, d in enumerate(case['horizon']):
                     self.system.simulate(d, print_summary=False)
+                    if n == 0 and case.get('late'):
+                        # the sensor is mounted between two simulate() calls: it counts from now
+                        self.t0 = self.env.now
+                        self.make_sensor()
             except Exception as e:
                 import traceback
                 self.fail('crash', f'{type(e).__name__}: {e} {traceback.format_exc()[-1000:]}')
+            if case.get('late') and not self.failed:
+                self.sh.count('sensors_mounted_between_runs')
         cap = case['capacity']
         return cap is not None and self.count > cap
 
@@ -386,7 +401,7 @@ def gen_periodic(rng, tie):
             'initial': [rng.choice(VALUES) for _ in range(nprobes)],
             'capacity': rng.choice([None, 1, 2, 3, 4, 6]), 'callbacks': rng.choice([0, 1, 2, 3]),
             'cms': rng.choice([0, 1, 2]), 'horizon': hs, 'script': script, 'tie': tie,
-            'tie_seed': rng.randrange(1 << 30)}
+            'tie_seed': rng.randrange(1 << 30), 'late': len(hs) == 2 and rng.random() < 0.5}
 
 
 def gen_part(rng, tie):
